@@ -10,22 +10,10 @@ def noTrigger (b : Line) : Bool :=
   !hasSub tProcess b && !hasTok ppToks b && !hasCiSub tConvert b && !hasCiSub tNewunit b &&
   !hasSub tFypp b && !hasSub tHypp b
 
-def emptyInfo : Info := ⟨false, [], false, none, none, false⟩
+def emptyInfo : Info := ⟨false, [], [], none, none, false⟩
 
 theorem strToks_sub : ∀ t ∈ strToks, t ∈ ppToks := fun _ ht => List.mem_append_left _ ht
 theorem intToks_sub : ∀ t ∈ intToks, t ∈ ppToks := fun _ ht => List.mem_append_right _ ht
-
-theorem hasSub_tLine_of_hasTok {b : Line} (h : hasTok intToks b = false) : hasSub tLine b = false := by
-  induction b with
-  | nil => simp [hasSub, tLine, litLen]
-  | cons c cs ih =>
-    obtain ⟨h1, h2⟩ := hasTok_cons_false h
-    simp only [hasSub, ih h2, Bool.or_false]
-    cases hl : (litLen tLine (c :: cs)).isSome with
-    | false => rfl
-    | true =>
-      have : (firstTok intToks (c :: cs)).isSome := firstTok_isSome_iff.mpr ⟨tLine, by simp [intToks], hl⟩
-      rw [h1] at this; exact absurd this (by simp)
 
 /-- the line as it is before the two OPEN rules (after rules 1–3) -/
 def beforeOpen (b : Line) (nl : Bool) : Line := (ruleIntPP (ruleStrPP (ruleIbm b nl).1).1).1
@@ -52,6 +40,26 @@ theorem segments_sep {b : Line} (h : tokInProt b = false) : Sep ppToks (segments
   simp only [tokInProt, List.any_eq_false] at h
   simpa using h p hp
 
+theorem mapCode_mapCode (g h : Line → Line) : ∀ ps : List Piece, mapCode h (mapCode g ps) = mapCode (fun c => h (g c)) ps := by
+  intro ps
+  induction ps with
+  | nil => rfl
+  | cons p ps ih => simp [mapCode, ih]
+
+/-- one rule of the shape `rulePP` rewrites code stretches only, on any well-separated decomposition -/
+theorem rulePP_local {toks : List Line} (f : Line → Line) (hne : ∀ t ∈ toks, t ≠ []) {ps : List Piece} (h : Sep toks ps) :
+    ∃ g : Line → Line, (rulePP toks f (flat ps)).1 = flat (mapCode g ps) := by
+  simp only [rulePP]
+  cases directiveLen toks (flat ps) with
+  | some n =>
+    refine ⟨id, ?_⟩
+    simp only
+    clear h
+    induction ps with
+    | nil => rfl
+    | cons p ps ih => simp only [flat, mapCode, id]; rw [← ih]
+  | none => exact ⟨scan toks f 0, scan_flat hne h⟩
+
 /-- rules 2 and 3 rewrite code stretches only: their combined effect on a line without macro token in a
 literal/comment is `flat (mapCode g (segments b))` for a code rewriter `g` -/
 theorem pp_local (b : Line) (h : tokInProt b = false) :
@@ -61,23 +69,12 @@ theorem pp_local (b : Line) (h : tokInProt b = false) :
   have hi : Sep intToks (segments b) := hsep.mono intToks_sub
   have hnes : ∀ t ∈ strToks, t ≠ [] := fun t ht => pp_ne t (strToks_sub t ht)
   have hnei : ∀ t ∈ intToks, t ≠ [] := fun t ht => pp_ne t (intToks_sub t ht)
+  obtain ⟨g1, h1⟩ := rulePP_local quoteTok hnes hs
+  rw [flat_segments] at h1
+  obtain ⟨g2, h2⟩ := rulePP_local zeroTok hnei (hi.mapCode g1)
+  refine ⟨fun c => g2 (g1 c), ?_⟩
   simp only [ruleIntPP, ruleStrPP]
-  cases directiveLen b with
-  | some n =>
-    refine ⟨scan intToks zeroTok 0, ?_⟩
-    have := scan_flat (f := zeroTok) hnei hi
-    rwa [flat_segments] at this
-  | none =>
-    refine ⟨fun c => scan intToks zeroTok 0 (scan strToks quoteTok 0 c), ?_⟩
-    have h2 := scan_flat (f := quoteTok) hnes hs
-    rw [flat_segments] at h2
-    simp only
-    rw [h2, scan_flat (f := zeroTok) hnei (hi.mapCode _)]
-    congr 1
-    generalize segments b = ps
-    induction ps with
-    | nil => rfl
-    | cons p ps ih => simp [mapCode, ih]
+  rw [h1, h2, mapCode_mapCode]
 
 /-- pieces without protected kind have no protected text -/
 theorem segF_kind : ∀ (n : Nat) (l : Line) (p : Piece), p ∈ segF n l → p.kind = .none → p.prot = [] := by
